@@ -75,6 +75,16 @@ CHECKS = {
    technique='TLA+ models of path mapping, of request sequences over a small file system with symlinks/hard links and of SCP/recursive-get downloads (specs/PathConfine) model-checked with TLC; cases and behaviours replayed against the real chroot SFTP server, SCP sink and recursive get with a system-call monitor',
    text='TLC exhausts every path over {a,b,"",".",".."} up to 5 components through the transcribed map_path, request sequences (22 request kinds) over a 3-4 node file system with symlinks and hard links, and SCP record / hostile directory-listing sequences, against AllTouchedUnderRoot/AllCreatedUnderDest (five sensitivity variants rejected); every case and every escaping history TLC finds is replayed against the real SFTPServer(chroot=), SCP sink and SFTPClient.get(recurse=True) in a scratch directory; the oracle is an audit-hook/os-wrapper monitor of every path-taking system call plus decoy files, independent of asyncssh internals.',
    note='Trusted: TLC, the system-call monitor (audit hook + os wrappers) and the harness kernel-walk resolver. Three known findings (textual chroot vs later-moved symlinks; symlink write-through in recursive get) are listed in known_findings.json by mechanism kind.'),
+ 'C06': dict(
+   category='model_checking', design_ref='DESIGN.md §5.6',
+   technique='TLA+ decision table of the phase/role gate (specs/Transport/Gate.tla) model-checked with TLC; every row injected by a raw malicious peer (client and server role) or a cleartext MITM into a real dialogue and compared with an untampered twin run',
+   text='TLC checks the transcribed gate of _recv_packet and the connection-level handlers over every (role, phase, message class, strict) row against NoEffectOutOfPhase/StrictNoFiller/RoleRespected (variants without the auth gate / role checks are rejected) and emits the table; each row of the encrypted phases is injected (well-formed, truncated, trailing bytes; thorough: every type 1..100) by a raw peer into a real server and a real client dialogue, singly and in pairs, and must end the connection or leave the run identical to the twin; cleartext injections at every pre-NEWKEYS position and the prefix-truncation manoeuvre must not go unnoticed under strict key exchange; USERAUTH_SUCCESS is sent at every point of the client dialogue and may only be accepted while the client log shows a request outstanding.',
+   note='Trusted: TLC, raw peers built on asyncssh transport for their own side, hook log of the client for the outstanding-request criterion. Non-strict peers are covered by the table only. Late USERAUTH_BANNER is a deliberate upstream tolerance and is not alarmed.'),
+ 'C19': dict(
+   category='model_checking', design_ref='DESIGN.md §5.19',
+   technique='TLA+ models of the stream session, process exit/collect and drain (specs/Stream) model-checked with TLC; case tables and behaviours replayed over real channel pairs with exactly TLC packetisation against a reference semantics on the concatenated stream',
+   text='TLC exhausts every stream over {a,b,newline} up to 4-6 units x every chunking x read/readexactly/readuntil/readline (single, multiple, regex separators) x windows, in-band markers, exit/CLOSE/wait/collect_output orderings, redirect targets and drain (ChunkIndependent, NothingLost, AllDataThenEOF, PauseAccurate, DrainSound; seven sensitivity variants rejected); ~15k (thorough 185k) cases are replayed against real SSHReader/SSHWriter/SSHClientProcess objects and every return value/exception is compared with the reference, with the window-escape calibrated as allowed.',
+   note='Trusted: TLC, virtual loop, the reference semantics in drivers/stream.py. Not modelled: reads after connection loss with an exception, async for, server-side redirect().'),
 }
 NOT_YET = 'check under construction in this round; see DESIGN.md §9'
 
